@@ -36,6 +36,8 @@ func (d *PathDecoder) attrValueCompletionAtPos(ctx context.Context, attr *hclsyn
 		expr := d.newExpression(attr.Expr, schema.Constraint)
 		for _, candidate := range expr.CompletionAtPos(ctx, pos) {
 			if uint(count) >= d.maxCandidates {
+				// there are more candidates than the limit allows to return
+				candidates.IsComplete = false
 				return candidates, nil
 			}
 
